@@ -183,9 +183,18 @@ def make_program(rng, ids: gen.Ids, is_async: bool) -> Tuple[Dict[str, Any], Lis
     invs = [gen.make_inv(ids, rng, errs=errs) for _ in range(2)]
     for inv in invs:
         inv["eargs"] = ["self"] if rng.random() < 0.5 else []
-    cls = gen.chain_class("K", [], members, invs, dbc=rng.random() < 0.7)
-    spec = {"funcs": [f, g], "classes": [cls]}
-    calls = [
+    dbc = rng.random() < 0.7
+    cls = gen.chain_class("K", [], members, invs, dbc=dbc)
+    classes = [cls]
+    sub_calls = []
+    if dbc:
+        # a sub-class which weakens the precondition of ``m`` (two groups: a fault in a condition of the inherited group must surface
+        # although the other group may admit the call)
+        sub_m = gen.make_member(ids, rng, "method", "m", is_async, 1, 1, 0, forms=forms, errs=errs, params=[P("self"), P("x")])
+        classes.append(gen.chain_class("K2", ["K"], [sub_m], [], dbc=True))
+        sub_calls = [{"target": "member", "cls": "K2", "key": "m"}]
+    spec = {"funcs": [f, g], "classes": classes}
+    calls = sub_calls + [
         {"target": "func", "name": "f"},
         {"target": "member", "cls": "K", "key": "m"},
         {"target": "member", "cls": "K", "key": "p.pget"},
